@@ -128,16 +128,16 @@ type listQuery struct {
 
 // qc is the context of one checkQueries call (one state).
 type qc struct {
-	st    *c17State
-	e     *eng.Engine
-	app   *chain.App
-	sn    *obs.Snapshot
-	v     *obs.View
-	r     *rand.Rand
-	where string
-	seed  int64
-
+	st                                *c17State
+	e                                 *eng.Engine
+	app                               *chain.App
+	sn                                *obs.Snapshot
+	v                                 *obs.View
+	r                                 *rand.Rand
+	where                             string
+	seed                              int64
 	nSample, relCap, nMangle, nSingle int
+	legacyHashes                      int // records whose content hash is not a valid by-hash query argument (genesis-only)
 
 	jsCache  map[interface{}]string
 	goodAddr map[string]bool   // canonical bech32 strings built from bytes by the harness
